@@ -1,3 +1,5 @@
+//go:build fam_restake || fam_all
+
 package main
 
 import (
